@@ -503,12 +503,13 @@ def record_traces(job):
                 continue
             si['src'] = src
             kl = set(si['lines'])
+            wl = {l for l, r_ in si['lines'].items() if r_['k'] == 'with'}
             nrun = 0
             for j, (args, ctx) in enumerate(vecfn(rng, 12 if tier == 'quick' else 30)):
                 args = [(7 if a == 2 ** 53 + 1 else a) if not isinstance(a, list) else [(7 if e == 2 ** 53 + 1 else e) for e in a] for a in args]
                 if j % 5 == 4 and not name.startswith('lib_'):
                     args[j % 2] = rng.choice(SUBNORMALS)
-                r = linetrace.record_run(f, args, ctx, known_lines=kl)
+                r = linetrace.record_run(f, args, ctx, known_lines=kl, with_lines=wl)
                 if r is None:
                     stats['run-too-long'] += 1
                     continue
